@@ -424,7 +424,7 @@ func c32Exec(in *c32In, obs *c32Obs) error {
 	if len(in.Trigs) > c32Slots {
 		return fmt.Errorf("at most %d triggers per case", c32Slots)
 	}
-	if c32Timeouts >= 2 { // the dispatcher does not quiesce any more: do not spend 10 s on every remaining case
+	if c32Timeouts >= 2 { // the dispatcher does not quiesce any more: do not spend 20 s on every remaining case
 		obs.Code = 3
 		return nil
 	}
@@ -509,7 +509,7 @@ func c32Exec(in *c32In, obs *c32Obs) error {
 	doCSM(bcsm, false)
 	select {
 	case <-p.barrier:
-	case <-time.After(10 * time.Second):
+	case <-time.After(20 * time.Second):
 		obs.Code = 3
 		c32P = nil // give up on this instance
 		c32Timeouts++
@@ -613,7 +613,7 @@ func c32Run(raw json.RawMessage) (res Result, err error) {
 		}
 	}
 	if obs.Code != 0 {
-		fail("run ended with code %d (2 = panic, 3 = the barrier write did not reach its trigger within 10 s)", obs.Code)
+		fail("run ended with code %d (2 = panic, 3 = the barrier write did not reach its trigger within 20 s)", obs.Code)
 	}
 	if len(obs.WErrs) > 0 {
 		fail("WriteCSM returned an error: %s", obs.WErrs[0])
